@@ -271,7 +271,8 @@ def tree_impl(nroots, ops, vals=None):
     ident = {id(p): i for i, p in enumerate(ps)}
     # roots as a single particle, a list or a tuple (by the parity of the history length); the caller's list must
     # stay what it was
-    roots_arg = ps[0] if nroots == 1 and len(ops) % 2 == 0 else (tuple(ps[:nroots]) if len(ops) % 3 == 0 else list(ps[:nroots]))
+    roots_arg = ps[0] if nroots == 1 and len(ops) % 2 == 0 else (
+        tuple(ps[:nroots]) if len(ops) % 3 == 0 else ((x for x in ps[:nroots]) if len(ops) % 3 == 1 else list(ps[:nroots])))
     ev = pp.Event(roots_arg)
     for k, (par, cs, bare) in enumerate(ops):
         try:
@@ -309,6 +310,15 @@ def tree_line(nroots, ops, vals=None):
 
 
 # ------------------------------------------------------------------------------------------------
+def corpus(run):
+    """regression inputs of repaired defects; a recurrence is a VIOLATION"""
+    # F24: get_from_level(0) returned the event's (= the caller's) roots list
+    check_returned_lists(run, 2, [(0, [2, 3], False)], [("level", 0, "append_foreign")])
+    check_returned_lists(run, 2, [(0, [2, 3], False)], [("level", 0, "clear")])
+    check_returned_lists(run, 2, [(0, [2, 3], False)], [("roots", 0, "clear")])
+    return True
+
+
 def correspondence(run):
     import scipy.constants
     pp = P()
@@ -754,6 +764,57 @@ def two_tree_state(ev, ps, roots, ops_done):
     return None
 
 
+EDITS = ("extend", "clear", "reverse", "pop", "append_foreign", "sort")
+
+
+def check_returned_lists(run, nroots, ops, edits):
+    """results MODIFIED by the caller: lists returned by get_children, get_from_level(k >= 1) and iteration are edited
+    (extended with other results, cleared, reversed, trimmed, a foreign particle appended, sorted), and so is the list the
+    caller passed as `roots` (F24: the event owns its roots); every later parent / children / level / iteration answer
+    must be what the history says.  edits = [(query, arg, edit)], query in children|level|iter|roots"""
+    pp = P()
+    nid = max([nroots] + [c + 1 for _, cs, _ in ops for c in cs])
+    ps = [pp.Particle("nu_e", (0, 0, -i), (0, 0, 1), 1e9, interaction_type="cc", interaction_model=pp.Interaction)
+          for i in range(nid)]
+    foreign = pp.Particle("nu_e", (0, 0, 9), (0, 0, 1), 1e9, interaction_type="cc", interaction_model=pp.Interaction)
+    caller_roots = list(ps[:nroots])
+    ev = pp.Event(caller_roots)
+    for par, cs, _ in ops:
+        ev.add_children(ps[par], [ps[c] for c in cs])
+    inp = {"nroots": nroots, "ops": [[p, cs, b] for p, cs, b in ops], "edits": [list(e) for e in edits]}
+    for k, (query, arg, edit) in enumerate(edits):
+        try:
+            if query == "children":
+                lst = ev.get_children(ps[arg])
+            elif query == "roots":
+                lst = caller_roots
+            elif query == "level":
+                lst = ev.get_from_level(arg)
+            else:
+                lst = list(iter(ev)) if arg else [x for x in ev]
+            if isinstance(lst, list):
+                if edit == "extend":
+                    lst.extend(ev.get_children(ps[0]))
+                elif edit == "clear":
+                    lst.clear()
+                elif edit == "reverse":
+                    lst.reverse()
+                elif edit == "pop" and lst:
+                    lst.pop()
+                elif edit == "append_foreign":
+                    lst.append(foreign)
+                elif edit == "sort":
+                    lst.sort(key=id)
+            bad = tree_state_bad(ev, ps, nroots, ops)
+        except Exception as e:      # noqa: BLE001
+            bad = "%s: %s" % (type(e).__name__, e)
+        if bad:
+            run.fail_input("returned-lists", dict(inp, edits=[list(e) for e in edits[:k + 1]]),
+                           observed="after edit %d (%s of the result of %s(%s)): %s" % (k, edit, query, arg, bad),
+                           what="editing a list returned by the event changed the event's later answers: " + bad)
+            return
+
+
 def check_reassign(run, tname, model, steps):
     """one Particle / Interaction object READ, then `interaction.kind`, `particle.energy` or `particle.id` re-assigned,
     then read again: cross_section, total_cross_section, interaction_length, total_interaction_length must be those
@@ -865,6 +926,19 @@ def search(run, deep):
         nroots, ops = random_history(rng, rng.choice([1, 4, 9]), flaws=False)
         run.case(("oracle-tree-errors", nroots, str(ops)[:120]))
         check_tree_errors(run, nroots, ops)
+    # lists returned by the event are edited by the caller
+    for i in range(200 if deep else 20):
+        nroots, ops = random_history(rng, rng.choice([5, 9, 14]), flaws=False)
+        ops = [(p, cs, False) for p, cs, _ in ops if cs]
+        members = list(range(nroots)) + [c for _, cs, _ in ops for c in cs]
+        parents = [p for p, cs, _ in ops] or [0]
+        edits = []
+        for k in range(rng.randint(2, 6)):
+            q = rng.choice(["children", "children", "level", "level", "iter", "roots"])
+            arg = rng.choice(parents) if q == "children" else (rng.randint(0, 3) if q == "level" else rng.randint(0, 1))
+            edits.append((q, arg, rng.choice(EDITS)))
+        run.case(("oracle-returned-lists", nroots, str(ops)[:100], str(edits)[:100]))
+        check_returned_lists(run, nroots, ops, edits)
     # the same particles in two trees
     for i in range(200 if deep else 20):
         nroots, ops_a = random_history(rng, rng.choice([5, 9, 14]), flaws=False)
@@ -968,6 +1042,8 @@ def replay(run, data):
             check_interaction(run, c)
         finally:
             me.Tape = orig
+    elif k == "returned-lists":
+        check_returned_lists(run, i["nroots"], [(p, cs, b) for p, cs, b in i["ops"]], [tuple(e) for e in i["edits"]])
     elif k == "two-trees":
         check_two_trees(run, i["nroots"], [(p, cs, b) for p, cs, b in i["ops_a"]], i["roots_b"],
                         [(p, cs, b) for p, cs, b in i["ops_b"]])
